@@ -17,6 +17,7 @@ import OFV.Proofs.C02Real
 import OFV.Proofs.C02PauliHerm
 import OFV.Proofs.C02MajComm
 import OFV.Proofs.C02HermIO
+import OFV.Proofs.C02Matrix
 
 namespace OFV.C02
 open OFV OFV.Model OFV.Model.C02 OFV.Proofs.C02
@@ -475,5 +476,20 @@ theorem is_hermitian_io_sound {A : Type} [Ring A] (I : Proofs.C03.Interp A)
       Proofs.C03.denIO I n c.conj (hcOneBody n one) (hcTwoBody n two) :=
   Proofs.C03.isHermitianIO_sound I car_same car_sq tol n c one two hlen
     (Proofs.C03.hexact_of_ioExactB tol n c one two hlen hx) h
+
+/-! ## `is_hermitian` / `hermitian_conjugated` on dense and sparse matrices -/
+
+/-- `hermitian_conjugated(M)[p, q] = conj M[q, p]` (flattened `n × n` matrix, all `p, q < n`). -/
+theorem hermitian_conjugated_matrix_entry (n : Nat) (M : List GQ) (p q : Nat) (hp : p < n) (hq : q < n) :
+    (hcMatrix n M).getD (p * n + q) 0 = (M.getD (q * n + p) 0).conj :=
+  getD_hcMatrix n M p q hp hq
+
+/-- **`is_hermitian(matrix)`** (`max |M - M†| < EQ_TOLERANCE`, dense or sparse) is True exactly
+when every entry satisfies `|M[p,q] - conj M[q,p]| < tol` — for every size and every matrix. -/
+theorem is_hermitian_matrix_iff (tol : Rat) (n : Nat) (M : List GQ) (hlen : M.length = n * n) :
+    isHermitianMatrix tol n M = true ↔
+      (0 < tol ∧ ∀ p q, p < n → q < n →
+        (M.getD (p * n + q) 0 - (M.getD (q * n + p) 0).conj).normSq < tol * tol) :=
+  isHermitianMatrix_iff tol n M hlen
 
 end OFV.C02
